@@ -85,8 +85,13 @@ def _flatten(l):
     return out
 
 
+REPLAY_F64 = [False]   # set while a float64 replay runs: constants then stay doubles, as the library sees them there
+
+
 def round_to_dtype(x, dtype):
     """Round a concrete rational to the nearest value of a floating dtype."""
+    if REPLAY_F64[0]:
+        return x
     if isinstance(x, Fraction) and dtype in (torch.float32, torch.float16, torch.bfloat16):
         if dtype == torch.float32:
             return Fraction(float(np.float32(float(x))))
